@@ -365,12 +365,16 @@ def recursion_threads_guard(ctx, rep: Report, rule: str, qual: str = "invalidate
     added = {ast.unparse(n.func.value) for n in walk_own(fi.node) if isinstance(n, ast.Call) and isinstance(n.func, ast.Attribute) and n.func.attr == "add"}
     tested = {ast.unparse(n.comparators[0]) for n in walk_own(fi.node) if isinstance(n, ast.Compare) and isinstance(n.ops[0], (ast.In, ast.NotIn))}
     guards = added & tested
-    if not guards:
-        raise AnalysisError(f"{rule}: no cycle guard (a set that is tested and extended) found in {qual}")
-    g = sorted(guards)[0]
     rec = [n for n in walk_own(fi.node) if isinstance(n, ast.Call) and isinstance(n.func, ast.Name) and n.func.id == fi.node.name]
     if not rec:
-        raise AnalysisError(f"{rule}: {qual} is not recursive any more")
+        rep.oblige(rule, f"{qual}: not recursive (nothing to thread)", True)
+        return
+    if not guards:
+        rep.oblige(rule, qual, False, "recursive without a cycle guard")
+        rep.violate(Violation(rule, f"{rule}|{qual}|noguard", f"{qual} recurses without a cycle guard (a set that is tested and extended): two dependants invalidating each other never terminate",
+                              f"{fi.module.relpath}:{rec[0].lineno}", qual))
+        return
+    g = sorted(guards)[0]
     bad = [n for n in rec if not any(ast.unparse(a) == g for a in list(n.args) + [k.value for k in n.keywords])]
     rep.oblige(rule, qual, not bad)
     for n in bad[:1]:
